@@ -503,3 +503,64 @@ pub fn merged_table_cases() -> Vec<(String, Vec<u8>, usize, bool)> {
 	}
 	v
 }
+
+/// Tables that reach the limit of their count field through reading alone: one table of exactly 65535 entries (255 for the
+/// u8 count of a type path) — a writer must state them whole or refuse, never truncate or wrap. The entries repeat one
+/// value wherever the format allows it, so that the constant pool stays small. A model the reference assembler and the
+/// strict parser do not agree on (the format forbids the repetition) is left out; the caller states how many remain.
+pub fn limit_table_cases() -> Vec<(String, Vec<u8>, cfmodel::Parsed)> {
+	const N: usize = 65_535;
+	let mut models: Vec<(&str, SClass)> = Vec::new();
+	let mut c = skeleton("p/Limit");
+	c.interfaces = vec![js("p/I"); N];
+	models.push(("interfaces", c));
+	let mut c = skeleton("p/Limit");
+	c.fields = (0..N).map(|_| SField { access: 0x0001, name: js("f"), desc: js("I"), ..Default::default() }).collect();
+	models.push(("fields", c));
+	let mut c = skeleton("p/Limit");
+	c.access = 0x0421;
+	c.methods = (0..N).map(|_| SMethod { access: 0x0401, name: js("m"), desc: js("()V"), ..Default::default() }).collect();
+	models.push(("methods", c));
+	let mut c = class_with_method("p/Limit", vec![RETURN]);
+	c.methods[0].exceptions = Some(vec![js("p/E"); N]);
+	models.push(("method-exceptions", c));
+	let mut c = class_with_method("p/Limit", vec![SInsn::Simple(op::NOP), RETURN]);
+	if let Some(code) = &mut c.methods[0].code {
+		code.exceptions = (0..N).map(|i| SExceptionEntry { start: 0, end: 1, handler: (i % 2) as Idx, catch: if i % 3 == 0 { None } else { Some(js("p/E")) } }).collect();
+	}
+	models.push(("exception-table", c));
+	let mut c = skeleton("p/Limit");
+	c.inner_classes = Some((0..N).map(|i| SInnerClass { inner: js("p/Limit$In"), outer: if i % 2 == 0 { Some(js("p/Limit")) } else { None }, name: Some(js("In")), flags: 0x0009 }).collect());
+	models.push(("inner-classes", c));
+	let mut c = skeleton("p/Limit");
+	c.nest_members = Some(vec![js("p/Limit$N"); N]);
+	models.push(("nest-members", c));
+	let mut c = skeleton("p/Limit");
+	c.permitted_subclasses = Some(vec![js("p/Sub"); N]);
+	models.push(("permitted-subclasses", c));
+	let mut c = skeleton("p/Limit");
+	c.annotations.visible = vec![SAnnotation { type_name: js("Lp/A;"), pairs: (0..N).map(|i| (js("v"), SElementValue::Const(b'I', SConst::Int((i % 3) as i32)))).collect() }];
+	models.push(("element-value-pairs", c));
+	let mut c = skeleton("p/Limit");
+	c.annotations.invisible = vec![SAnnotation { type_name: js("Lp/A;"), pairs: vec![(js("v"), SElementValue::Array((0..N).map(|i| SElementValue::Str(js(["x", "y"][i % 2]))).collect()))] }];
+	models.push(("array-values", c));
+	let boot = SBootstrap { handle: handles()[5].clone(), args: (0..N).map(|i| SConst::Int((i % 4) as i32)).collect() };
+	let c = class_with_method("p/Limit", vec![SInsn::InvokeDynamic(SDynamic { bootstrap: boot, name: js("run"), desc: js("()V") }), RETURN]);
+	models.push(("bootstrap-arguments", c));
+	let mut c = class_with_method("p/Limit", vec![RETURN]);
+	c.methods[0].unknown = (0..N - 1).map(|_| SUnknown { name: js("x.Custom"), bytes: Vec::new() }).collect();
+	models.push(("method-attributes", c));
+	let mut c = skeleton("p/Limit");
+	c.fields.push(SField { access: 0x0001, name: js("f"), desc: js("I"), annotations: SAnnotations { visible_type: vec![STypeAnnotation { target: STarget::Empty(0x13), path: (0..255).map(|i| ((i % 2) as u8 * 3, if i % 2 == 1 { (i % 7) as u8 } else { 0 })).collect(), annotation: SAnnotation { type_name: js("Lp/TA;"), pairs: Vec::new() } }], ..Default::default() }, ..Default::default() });
+	models.push(("type-path", c));
+	let mut v = Vec::new();
+	for (name, m) in models {
+		let Ok(bytes) = cfmodel::asm::assemble(&m, &Encoding::default()) else { continue };
+		let Ok(p) = cfmodel::parse(&bytes) else { continue };
+		if p.class != m {
+			continue;
+		}
+		v.push((format!("tables-at-limit/{name}"), bytes, p));
+	}
+	v
+}
